@@ -6,6 +6,27 @@ VERIF = os.path.dirname(os.path.dirname(os.path.abspath(__file__)))
 
 # id -> (technique, level text, level note, design section)
 CHECKS = {
+    "C01": (
+        "model-based operation histories (Hypothesis-generated op lists interpreted against bt and a reference accounting model) + probe algo inside generated backtests",
+        "Generated histories of adjust/allocate/transact/rebalance/close/flatten/date changes on generated trees; after every operation the balance-sheet identities are checked on the "
+        "live tree and against an independent reference model fed with the executed quantities; recorded rows are compared with end-of-date snapshots. Exploration only: no counterexample in N cases.",
+        "Observation follows bt's lazy-update protocol (read after an operation with default flags). The model takes executed trade quantities and strategy-level allocation amounts from harness spies; tolerance 1e-9 relative + 1e-7.",
+        "5/C01",
+    ),
+    "C02": (
+        "model-based operation histories + day-by-day P&L attribution recomputed from recorded series of generated backtests",
+        "Per-operation conservation (root value moves by exactly minus the costs of the trades executed) on generated histories, and the day-by-day attribution identity recomputed from the "
+        "recorded series for the root and every sub-strategy of generated histories and grammar backtests.",
+        "Non-flow adjustments and flows injected directly into descendants are known to the driver; tolerance 1e-9 relative + 1e-6.",
+        "5/C02",
+    ),
+    "C03": (
+        "recurrence oracle on recorded series + model-based histories + two metamorphic relations between whole runs (capital scaling, flows on zero-P&L dates)",
+        "Index recurrence on every date of generated backtests, intra-date recurrence after every operation of generated histories with the model's own accumulators, and two metamorphic "
+        "relations between whole runs (scale invariance; flows on zero-P&L dates do not move the index).",
+        "Flow neutrality is read as 'a flow by itself produces no return' (the stated recurrence dilutes a same-date P&L); metamorphic relations only on the scale-free grammar subset and solvent runs.",
+        "5/C03",
+    ),
     "C05": (
         "Hypothesis-generated direct allocate calls vs an independent cost function and bisection oracle",
         "Generated-input search (40k quick / 1.5M thorough direct calls over price x multiplier x position x amount x spread x commission spec x mode) against an "
@@ -13,6 +34,20 @@ CHECKS = {
         "evidence over the sampled domain, not a proof.",
         "Trusts the harness cost function (q*p*m + |q|*s/2*m + fee, zero for no trade) and the stated commission domain (one-unit commission + half-spread < 0.9 unit price).",
         "5/C05",
+    ),
+    "C07": (
+        "model-based operation histories with per-trade spies + ledger identity recomputed from recorded series of generated backtests",
+        "Every executed trade is observed through a spy (parent cash delta, commission calls), per-date fees/flows/outlays/bid-offer rows are compared with the reference model after every "
+        "operation, and the per-node per-date cash ledger identity is recomputed from the recorded series of generated histories and grammar backtests.",
+        "CapitalFlow only on the root in generated backtests; tolerance 1e-9 relative + 1e-7.",
+        "5/C07",
+    ),
+    "C08": (
+        "twin execution of generated histories (plain vs with generated redundant updates and reads) with bit-identical snapshot comparison; noisy vs plain generated backtests",
+        "Two identical trees execute the same generated history, one with extra generated update calls and property reads; snapshots must be bit-identical after every step, past rows frozen, "
+        "no accessor beyond now; plus grammar backtests with and without a noise algo.",
+        "Noise is placed between operations issued with default update flags (never inside an update=False batch).",
+        "5/C08",
     ),
     "C10": (
         "grammar-generated whole backtests (Hypothesis) with finiteness oracle and exception bucketing; generated ill-formed classes must raise",
